@@ -233,7 +233,7 @@ func verifC20serve(K, preempt, forks int) {
 func verif_C20_races() {
 	verifPreemptBound(verifBound(1, 2))
 	verifSchedForkBound(verifBound(3, 5))
-	scenario := verifChoice(6)
+	scenario := verifChoice(8)
 	be := &vbackend{lmtpSession: scenario == 4}
 	be.dataFn = func(_ *vsession, r io.Reader) error {
 		_, e := verifReadAll(r, 4)
@@ -250,7 +250,7 @@ func verif_C20_races() {
 		return e
 	}
 	s, _ := verifServer(be)
-	s.LMTP = scenario >= 3
+	s.LMTP = scenario == 3 || scenario == 4
 	var in string
 	switch scenario {
 	case 3, 4:
@@ -289,9 +289,23 @@ func verif_C20_races() {
 		verifReach("C20.races-end")
 		return
 	}
+	if scenario >= 6 {
+		// the read fails in the middle of a chunk (6: the deadline expires and
+		// the rest arrives late, 7: connection reset) while the delivery is
+		// waiting for the rest: nothing may wait for the other forever
+		in = "EHLO c\r\nMAIL FROM:<a@v>\r\nRCPT TO:<b@v>\r\nBDAT 6 LAST\r\nabcdefNOOP\r\n"
+	}
 	vc := &vconn{in: []byte(in), final: io.EOF}
 	if scenario == 0 || scenario == 2 {
 		vc.hold = make(chan struct{})
+	}
+	if scenario == 6 {
+		s.ReadTimeout = time.Second
+		vc.faults = map[int]error{len(in) - 9: verifTimeoutErr{}}
+	}
+	if scenario == 7 {
+		vc.in = vc.in[:len(in)-9]
+		vc.final = errors.New("verif: connection reset by peer")
 	}
 	c := newConn(vc, s)
 	verifHB(true)
